@@ -28,6 +28,7 @@ inductive IterStep
 
 inductive Op
   | beginW | beginR | commit | rollback | endR | reopen | probe
+  | raw                  -- dump of the underlying store (model-level observation of the key encoding)
   | create (s : Slot) (p : Path)
   | delb (s : Slot) (p : Path)
   | has (s : Slot) (p : Path)
